@@ -4,6 +4,7 @@
 package drv
 
 import (
+	"context"
 	"crypto/ecdsa"
 	"crypto/elliptic"
 	"crypto/rand"
@@ -42,6 +43,22 @@ type Runner struct {
 	cidSeq  int
 	certPEM string
 	keyPEM  string
+	idp     *envx.IdP
+}
+
+// SharedIdP returns the run-wide fake identity provider (RSA key generation is
+// slow, so one provider serves every gateway instance of a run).
+func (r *Runner) SharedIdP() (*envx.IdP, error) {
+	r.mu.Lock()
+	defer r.mu.Unlock()
+	if r.idp == nil {
+		p, err := envx.NewIdP()
+		if err != nil {
+			return nil, err
+		}
+		r.idp = p
+	}
+	return r.idp, nil
 }
 
 // ScriptCfg is the abstract configuration a script runs under.
@@ -289,14 +306,14 @@ func (i *Inst) Abs(s string, hint [][]string) []string {
 
 // NewInst starts the environment and the gateway for cfg.
 func (r *Runner) NewInst(cfg ScriptCfg) (*Inst, error) {
-	in := &Inst{R: r, Cfg: cfg, Sym: map[string]string{}, Backends: map[string]*envx.Backend{}, Users: map[string]string{"nuser1": "npass1-secret", "nuser2": "npass2-secret", "1": "pw-1", "2": "pw-2"}}
+	in := &Inst{R: r, Cfg: cfg, Sym: map[string]string{}, Backends: map[string]*envx.Backend{}, Users: map[string]string{"nuser1": "npass1-secret", "nuser2": "npass2-secret", "7": "pw-7", "8": "pw-8", "user1": "pw-user1"}}
 	ok := false
 	defer func() {
 		if !ok {
 			in.Stop()
 		}
 	}()
-	for _, b := range []struct{ name, ip string }{{"A", "127.0.0.1"}, {"B", "127.0.0.1"}, {"E", "127.0.0.1"}, {"A2", "127.0.0.2"}} {
+	for _, b := range []struct{ name, ip string }{{"A", "127.0.0.1"}, {"B", "127.0.0.1"}, {"E", "127.0.0.1"}} {
 		be, err := envx.NewBackend(b.ip)
 		if err != nil {
 			return nil, err
@@ -363,7 +380,7 @@ func (r *Runner) NewInst(cfg ScriptCfg) (*Inst, error) {
 	}
 	switch cfg.Auth {
 	case "openid", "":
-		idp, err := envx.NewIdP()
+		idp, err := r.SharedIdP()
 		if err != nil {
 			return nil, err
 		}
@@ -394,9 +411,6 @@ func (i *Inst) Stop() {
 	if i.P != nil {
 		i.P.Stop()
 	}
-	if i.IdP != nil {
-		i.IdP.Close()
-	}
 	if i.Auth != nil {
 		i.Auth.Stop()
 	}
@@ -412,23 +426,39 @@ func (i *Inst) BaseURL() string {
 	return "http://" + i.P.Addr
 }
 
+// AddrFor returns the gateway address to dial from a given source address
+// (the IPv6 loopback when the source is an IPv6 address).
+func (i *Inst) AddrFor(localIP string) string {
+	if strings.Contains(localIP, ":") {
+		return fmt.Sprintf("[::1]:%d", i.P.Port)
+	}
+	return i.P.Addr
+}
+
 // Browser is a cookie-jar HTTP client bound to a source address.
 type Browser struct {
-	C   *http.Client
-	XFF string
-	I   *Inst
+	C       *http.Client
+	XFF     string
+	I       *Inst
+	LoginID string // appended to the IdP authorization request
+	Local6  bool   // talk to the gateway over the IPv6 loopback
 }
 
 func (i *Inst) NewBrowser(localIP, xff string) *Browser {
 	jar, _ := cookiejar.New(nil)
-	d := &net.Dialer{Timeout: 5 * time.Second}
-	if localIP != "" {
-		d.LocalAddr = &net.TCPAddr{IP: net.ParseIP(localIP)}
+	gwPort := fmt.Sprintf(":%d", i.P.Port)
+	dial := func(ctx context.Context, network, addr string) (net.Conn, error) {
+		d := &net.Dialer{Timeout: 5 * time.Second}
+		// only connections to the gateway come from the chosen client address
+		if localIP != "" && strings.HasSuffix(addr, gwPort) {
+			d.LocalAddr = &net.TCPAddr{IP: net.ParseIP(localIP)}
+		}
+		return d.DialContext(ctx, network, addr)
 	}
-	tr := &http.Transport{DialContext: d.DialContext, TLSClientConfig: &tls.Config{InsecureSkipVerify: true}, DisableKeepAlives: true}
+	tr := &http.Transport{DialContext: dial, TLSClientConfig: &tls.Config{InsecureSkipVerify: true}, DisableKeepAlives: true}
 	c := &http.Client{Jar: jar, Transport: tr, Timeout: 15 * time.Second,
 		CheckRedirect: func(req *http.Request, via []*http.Request) error { return http.ErrUseLastResponse }}
-	return &Browser{C: c, XFF: xff, I: i}
+	return &Browser{C: c, XFF: xff, I: i, Local6: strings.Contains(localIP, ":")}
 }
 
 // Hop is one HTTP exchange of a browser flow.
@@ -441,11 +471,15 @@ type Hop struct {
 }
 
 func (b *Browser) Get(u string) (*Hop, error) {
+	toGW := strings.HasPrefix(u, b.I.BaseURL())
+	if b.Local6 && toGW {
+		u = strings.Replace(u, b.I.P.Addr, fmt.Sprintf("[::1]:%d", b.I.P.Port), 1)
+	}
 	req, err := http.NewRequest("GET", u, nil)
 	if err != nil {
 		return nil, err
 	}
-	if b.XFF != "" && strings.HasPrefix(u, b.I.BaseURL()) {
+	if b.XFF != "" && toGW {
 		req.Header.Set("X-Forwarded-For", b.XFF)
 	}
 	resp, err := b.C.Do(req)
@@ -488,6 +522,9 @@ func (b *Browser) Connect(query string, maxHops int) ([]*Hop, error) {
 			return hops, nil
 		}
 		u = b.rebase(h.Location)
+		if b.LoginID != "" && b.I.IdP != nil && strings.HasPrefix(u, b.I.IdP.URL+"/auth") {
+			u += "&verif_login=" + b.LoginID
+		}
 	}
 	return hops, nil
 }
@@ -516,9 +553,15 @@ func ParseRDP(body string) (map[string]string, []string) {
 // Mint logs in as sub through the real /connect -> IdP -> /callback flow and
 // returns the access cookie, the file's settings and the IdP access token.
 func (i *Inst) Mint(sub, hostParam, localIP, xff string) (tok string, file map[string]string, at string, err error) {
-	l := &envx.Login{Sub: sub, Claims: map[string]interface{}{"preferred_username": sub}}
-	i.IdP.SetNext(l)
+	return i.MintAs(sub, sub, hostParam, localIP, xff)
+}
+
+// MintAs is Mint with a login name (preferred_username) that may differ from
+// the subject the IdP's userinfo endpoint reports.
+func (i *Inst) MintAs(sub, loginName, hostParam, localIP, xff string) (tok string, file map[string]string, at string, err error) {
+	l := &envx.Login{Sub: sub, Claims: map[string]interface{}{"preferred_username": loginName}}
 	b := i.NewBrowser(localIP, xff)
+	b.LoginID = i.IdP.Register(l)
 	q := ""
 	if hostParam != "" {
 		q = "host=" + url.QueryEscape(hostParam)
